@@ -32,6 +32,8 @@ def clause_of(check, h):
     if d.startswith("never:"):
         d = d[6:].strip()
         return "never:" + d.split("(")[0].strip()[:60]
+    if "src/dst overlap" in d:
+        return "overlap"
     if d.startswith("unwinding assertion"):
         return "termination" if h.unwind_is_violation else "unwind"
     if ":" in d:
@@ -46,6 +48,8 @@ MEMORY_CLAUSES = ("Offset result and original pointer", "dereference failure", "
 
 
 def _is_memory_clause(check):
+    if "src/dst overlap" in check.desc:
+        return False   # copy_nonoverlapping on overlapping ranges is real UB (the dev build aborts on it), not a model artefact
     return check.desc.startswith(MEMORY_CLAUSES) or check.cls in ("pointer_dereference", "safety_check", "pointer_arithmetic")
 
 
